@@ -108,6 +108,9 @@ func c15ClearCovers(c *Ctx, t, dense *types.Named, pr *paginatedRoles) {
 			continue
 		}
 		for _, l := range c.Mod.ModsRooted(fn, 0) {
+			if c.locIsScratch(types.NewPointer(t), l) {
+				continue // a scratch buffer carries nothing from one life of the store into the next
+			}
 			// map the location to a flat field path
 			for _, ff := range flds {
 				p := "." + strings.Join(ff.path, ".")
@@ -425,6 +428,13 @@ func c15Regrowth(c *Ctx, t *types.Named) {
 				}
 				if !x.isParam(0) {
 					continue
+				}
+				if fa, isFA := st.Addr.(*ssa.FieldAddr); isFA {
+					if pt, isP := fa.X.Type().Underlying().(*types.Pointer); isP {
+						if sst, isS := pt.Elem().Underlying().(*types.Struct); isS && !c.fieldCarriesState(sst.Field(fa.Field)) {
+							continue // scratch: emptied by every user before it is read
+						}
+					}
 				}
 				n++
 				vt := tc.Of(st.Val)
